@@ -45,6 +45,7 @@ class FakeAMQPServer:
         self.seq = 0
         self.channels = []
         self.dropped = []        # messages discarded (no DLX / unroutable)
+        self.confirm_turns = 0   # loop turns between routing (and delivery) of a publish and its confirm
 
     def declare(self, name, arguments):
         if name not in self.queues:
@@ -125,6 +126,8 @@ class FakeChannel:
         self.server.published.append(entry)
         self.log.append(("publish", routing_key, props.message_id))
         self.server.route(routing_key, QMsg(body, props, routing_key, self.server.seq), asyncio.get_running_loop())
+        for _ in range(self.server.confirm_turns):
+            await asyncio.sleep(0)       # the broker may deliver the message before the publisher confirm arrives
         return spec.Basic.Ack()
 
     # -- consuming ----------------------------------------------------------------------
